@@ -37,7 +37,7 @@ def run_histories(o, ctx, tier, seed, tag, n_quick, n_thorough, flt=None, max_he
         o.count("reqs=%d" % len(m["kinds"]))
         for k in m["kinds"]:
             o.count("kind=" + k)
-        if len(m["kinds"]) >= 2 or any(k in ("reqclose", "close", "hookdrop", "hookdropclose", "err") for k in m["kinds"]):
+        if len(m["kinds"]) >= 2 or any(k in ("reqclose", "close", "hookdrop", "hookdropclose", "err", "errint", "errclose") for k in m["kinds"]):
             o.nontrivial.add(c)
         if len(o.samples) < 5 and i % 37 == 0:
             o.samples.append({"case": c[:400], "impl": a[:300], "expected": ",".join(e)[:300]})
@@ -68,6 +68,16 @@ def run_c07(o, ctx, tier, seed, replay=None):
             o.violations.append({"case": replay["case"], "impl": impl[0], "expected": replay["expected"], "why": "replayed transcript still differs"})
         return
     run_histories(o, ctx, tier, seed, "c07", 400, 12000)
+    # the same property in epoll mode (one-request jobs re-armed by readiness): keep-alive plans incl. "next request arrives
+    # while the previous one is still being handled"
+    from . import epoll as E
+    sub = C.Outcome("C07", tier, seed)
+    E.run("C14")(sub, ctx, "quick", seed)
+    o.evaluations += sub.evaluations
+    o.extra["epoll_mode_plans"] = sub.evaluations
+    for v in sub.violations:
+        v["why"] = "epoll mode: " + v["why"]
+        o.violations.append(v)
 
 
 def known_c07(o, ctx, k):
@@ -80,12 +90,23 @@ def known_c07(o, ctx, k):
     return got is not None and "HANG" in got
 
 
-register("C07", unclaimed="connection model (Lean) being built", lean=[], run=run_c07, known_check=known_c07,
+def run_c09(o, ctx, tier, seed, replay=None):
+    if replay is not None:
+        return run_c07(o, ctx, tier, seed, replay)
+    closing = {"reqclose", "reqnoclose", "close", "err", "errint", "errclose", "hookdrop", "hookdropclose"}
+    run_histories(o, ctx, tier, seed, "c09", 300, 10000, flt=lambda m: bool(closing & set(m["kinds"])))
+
+
+register("C07", lean=["Khttp.Props.C07", "Khttp.Props.C07Skeleton"], run=run_c07, known_check=known_c07,
          rule="CONN histories: 1-4 requests per connection over 15 handler behaviours (read all / k bytes / nothing, respond before reading, swallow errors, hook Drop, close tokens, errors, reader responses) "
               "x fixed/chunked bodies (extensions, trailers, Content-Length overridden by chunked) x head/body segmentations incl. 1-byte segments and 'rest of body together with the next request after the response'. "
               "distinct_nontrivial = distinct histories with >= 2 requests or a closing outcome.",
          assumptions=["lock-step client (sends request i+1 only after response i; the rest of an unread body may travel with the next head)"],
-         explanation="(under construction)")
+         explanation="Theorems (Props/C07) on the model of handle_one_request / handle_connection, for handlers that use the body reader only through Read/BufRead (any mix of read / fill_buf / consume): "
+                     "after the drop-drain exactly the fixed-length body has been consumed whatever the handler did (fixed_ops_drain), so the next request is parsed from the byte after the body (C07_fixed_boundary, "
+                     "C07_no_body_boundary, hook-Drop variant); one response per request in order for sequences of fixed/no-body requests; truncated or malformed bodies close the connection (C07_unknown_position_closes); "
+                     "chunked bodies: at least the encoding is consumed and parsing never resumes inside the body; the full chunked statement is refuted by the read-ahead witness (known finding K07). "
+                     "Tie: control skeleton of server/mod.rs (decide) + CONN correspondence. Oracle: specified transcript per history on the real Server::handle; plus keep-alive plans in epoll mode.")
 
 
 # ------------------------------------------------------------------------------------------------ C10
@@ -140,7 +161,8 @@ def run_c10(o, ctx, tier, seed, replay=None):
         cases = [(replay["max"], [unhex(x) for x in replay["segs"]], replay["expected"], 0)]
     else:
         cases = c10_cases(seed, t)
-    lines = ["CONN max=%d script=%s,r,e" % (N, ",".join("s:" + hx(s_) for s_ in segs)) for N, segs, _, _ in cases]
+    # half of the cases run on a thread that has just served a connection of a server with a LARGER head limit
+    lines = ["CONN max=%d%s script=%s,r,e" % (N, " warm=%d" % (4096 if N < 4096 else 65536) if k % 2 else "", ",".join("s:" + hx(s_) for s_ in segs)) for k, (N, segs, _, _) in enumerate(cases)]
     mlines = ["RDREQ max=%d segs=%s close=0" % (N, ",".join(hx(s_) for s_ in segs)) for N, segs, _, _ in cases]
     impl = C.run_sharded(ctx["kimpl"], lines, shards=min(C.NCPU, 16))
     model = C.run_sharded(ctx["kmodel"], mlines) if ctx.get("have_model") else None
@@ -185,7 +207,10 @@ register("C10", lean=["Khttp.Props.C10"], run=run_c10,
 
 
 # ------------------------------------------------------------------------------------------------ C05 (connection level)
-CL_VARIANTS = [[], [b"5"], [b" 5 "], [b"05"], [b"+5"], [b"abc"], [b"5, 5"], [b"5", b"5"], [b"5", b"6"], [b"18446744073709551616"], [b""], [b"5 5"], [b"-5"], [b"0x5"]]
+CL_VARIANTS = [[], [b"5"], [b" 5 "], [b"05"], [b"+5"], [b"abc"], [b"5, 5"], [b"5", b"5"], [b"5", b"6"], [b"18446744073709551616"], [b""], [b"5 5"], [b"-5"], [b"0x5"],
+               # zero, and multi-line orders in which only the LAST line (or the last two) look fine
+               [b"0"], [b"0", b"0"], [b"abc", b"5"], [b"+5", b"5"], [b"5, 5", b"5"], [b"18446744073709551616", b"5"], [b"5", b"abc"], [b"5", b"6", b"6"], [b"6", b"5", b"5"],
+               [b"5", b"abc", b"5"], [b"5", b"5", b"6"], [b"0", b"5"], [b"5", b"0"]]
 TE_VARIANTS = [[], [b"chunked"], [b"CHUNKED"], [b" chunked\t"], [b"gzip, chunked"], [b"gzip ,\tChunked "], [b"chunked, gzip"], [b"gzip"],
                [b"gzip", b"chunked"], [b"chunked", b"gzip"], [b"chunked,"], [b""], [b"xchunked"], [b"chunked", b"chunked"]]
 OWS = b" \t"
@@ -240,7 +265,7 @@ def c05_cases(seed, tier):
                 if fr[0] == "chunked":
                     body = b"5\r\nhello\r\n0\r\n\r\n"; exp = ["R200:0:" + hx(payload), "R200:0:" + hx(b"1,2")]
                 elif fr[0] == "fixed":
-                    body = (payload * 4)[:fr[1]] if fr[1] <= 20 else b"x" * 0
+                    body = (payload * 4)[:fr[1]] if fr[1] <= 20 else b""
                     if fr[1] > 20:
                         continue
                     exp = ["R200:0:" + hx(body), "R200:0:" + hx(b"1,2")]
@@ -257,9 +282,42 @@ def c05_cases(seed, tier):
     return out
 
 
+def hdr_framing_lines(seed, tier):
+    """op sequences that only add framing fields: the collection's verdict (cl, chunked, invalid) vs the RFC table"""
+    import itertools
+    from gen import hdr as H
+    vals_cl = [b"5", b"0", b" 5 ", b"abc", b"+5", b"6", b"5, 5", b"18446744073709551616"]
+    vals_te = [b"chunked", b"gzip", b"gzip, Chunked ", b"chunked, gzip", b"chunked,"]
+    alpha = [("add", b"Content-Length", v) for v in vals_cl] + [("add", b"transfer-encoding", v) for v in vals_te]
+    out = []
+    depth = 2 if tier == "quick" else 3
+    for d in range(1, depth + 1):
+        for combo in itertools.product(alpha, repeat=d):
+            out.append((list(combo), H.line(list(combo), [])))
+    return out
+
+
 def run_c05(o, ctx, tier, seed, replay=None):
     t = "thorough" if tier in ("thorough", "search") else "quick"
     cases = c05_cases(seed, t)
+    if replay is None:
+        hl = hdr_framing_lines(seed, t)
+        impl_h, model_h = diff_run(o, ctx, [l for _, l in hl], nontrivial=lambda c, a: c.count(";") >= 1, tags=lambda c, a: "hdr-framing")
+        for (ops, line), a in zip(hl, impl_h):
+            cls = [v for k, n, v in ops if n.lower() == b"content-length"]
+            tes = [v for k, n, v in ops if n.lower() == b"transfer-encoding"]
+            fr = rfc_framing(cls, tes)
+            _, d = kv("X " + a)
+            got_inv = d.get("inv") == "1"
+            why = None
+            if (fr[0] == "invalid") != got_inv:
+                why = "Content-Length %s / Transfer-Encoding %s: RFC 9112 6.3 says %s but has_invalid_framing() = %s" % (cls, tes, fr[0], got_inv)
+            elif fr[0] == "fixed" and not (d.get("cl") == str(fr[1]) and d.get("ch") == "0"):
+                why = "fixed length %d expected, collection says cl=%s chunked=%s" % (fr[1], d.get("cl"), d.get("ch"))
+            elif fr[0] == "chunked" and d.get("ch") != "1":
+                why = "chunked expected, collection says chunked=%s" % d.get("ch")
+            if why and len(o.violations) < 30:
+                o.violations.append({"case": line, "impl": a, "why": why})
     if replay is not None:
         cases = [(replay["case"], replay["expected"].split(","), "?", [])]
     lines = [c[0] for c in cases]
@@ -280,3 +338,21 @@ def run_c05(o, ctx, tier, seed, replay=None):
         if got != exp and len(o.violations) < 30:
             o.violations.append({"case": c, "impl": a[:300], "expected": ",".join(exp),
                                  "why": "framing fields %s (RFC 9112 6.3: %s): got %s, expected %s" % ([(k.decode(), v.decode("latin1")) for k, v in fields], kind, ",".join(got)[:80], ",".join(exp)[:80])})
+
+
+CONN_RULE = ("CONN histories (see C07) restricted to those containing a close-relevant request: Connection: close in 9 spellings/placements (case, comma lists, OWS incl. HTAB, repeated fields) and 6 look-alikes that are NOT close, "
+             "handler response with connection: close, handler errors (Other and Interrupted), pre-routing Drop with/without close; observed: is the next request answered or is the connection at EOF. "
+             "distinct_nontrivial = distinct histories with >= 2 requests or a closing outcome.")
+register("C09", lean=["Khttp.Props.C09", "Khttp.Props.C07Skeleton"], run=run_c09, rule=CONN_RULE,
+         assumptions=["lock-step client", "user handlers and hooks are parameters of the model (Cfg); handlers use the body reader through its public API"],
+         explanation="Theorems (Props/C09): exact characterisation of the keep-alive decision of handle_one_request (handler path, hook-Drop path, rejected heads 400/431 with close, peer EOF), the close flag of an accepted request = "
+                     "'some Connection field has a comma-separated element equal to close ignoring case and surrounding whitespace' (via C04 + C19), handle_connection stops at the first closing call and reads nothing afterwards, "
+                     "fuel adequacy. Tie: control skeleton of handle_one_request / handle_connection (decide) + CONN correspondence. Oracle: is the next request answered or is the connection at EOF, per history.")
+register("C05", lean=["Khttp.Props.C05"], run=run_c05,
+         rule="CONN cases: the full product {14 Content-Length variants (absent, valid, OWS-padded, zero-padded, signed, non-numeric, list-valued, duplicated equal/different, overflow, empty, hex)} x {14 Transfer-Encoding variants "
+              "(absent, chunked, CHUNKED, OWS-padded, gzip+chunked, chunked+gzip, gzip, split over lines both ways, trailing comma, empty, xchunked, repeated)} x field order x {body in the same / a later segment}, each followed by a probe request "
+              "whose answer reveals where the server looked for the next request (quick: a random 55% of the cells). distinct_nontrivial = distinct cells with at least two framing fields.",
+         assumptions=["field values restricted to RFC field-value bytes", "HTTP/1.1 requests"],
+         explanation="Theorems (Props/C05): the header collection's framing verdict and the body reader chosen by from_request agree with the RFC 9112 6.3 evaluation framingOf of the field lines (C05_decision both directions, "
+                     "C05_reader_choice: chunked wins over Content-Length); heads with invalid framing are never accepted and end in 400 + close with no body byte read, for every segmentation (C05_invalid_framing_400); "
+                     "OWS / case invariance. Tie: CONN + HDR correspondence. Oracle: independent Python RFC table, probe request reveals the position of the next request.")
